@@ -422,6 +422,46 @@ theorem corresponding_structs_have_corresponding_members {u1 u2 : U} {ob1 ob2 : 
     (hk : ob1.kind = .struct) : ob2.kind = .struct ∧ All2 (MemberEq u1 u2) ob1.members ob2.members :=
   ⟨h.kind ▸ hk, h.members hk⟩
 
+/-! ## requested packages are complete (Lemmas/WalkSide.lean) -/
+open Gengo.WalkSide
+
+/-- **requested_package_is_complete**: the scan of a requested package (v1 `findTypesIn`; function, variable and constant
+names distinct, as in any Go package) leaves in the universe: every named type of its scope, registered under its own
+name with a kind; every function, variable and constant, registered under its name as a `DeclarationOf` object over the
+object of its Go type, constants with their values; and the package's record with its name and direct imports -/
+theorem requested_package_is_complete {bt : List Builtin} (F : Facts) (v2 : Bool) (hwf : WellFormed F v2) (fuel : Nat) (u u' : U) (p : GPkg)
+    (h : Full bt F v2 u) (hinj : DeclInj u) (hnd : (p.scope.filterMap (declKey v2)).Nodup)
+    (hf : scanPkg bt F v2 (fuel + 1) u p = some u') :
+    (∀ ob ∈ p.scope, C01.PlainNamed F v2 ob → C01.Present F v2 u' ob) ∧
+    (∀ ob ∈ p.scope, ∀ (d : Decl) (n : Name), declKey v2 ob = some (d, n) → Recorded F v2 u' d n ob.ty (declVal ob)) ∧
+    (∃ r ∈ u'.pkgs, r.path = p.path ∧ r.name = p.name ∧ ∀ i ∈ p.imports, i ∈ r.imports) :=
+  ⟨C01.scan_declared_types_present bt F v2 fuel u u' p h.1 hf,
+   scanPkg_records_decls F v2 hwf (fuel + 1) u p u' h hinj hnd hf,
+   scanPkg_records F v2 (fuel + 1) u p u' hf⟩
+
+/-- declarations have objects of their own, in every universe the loaders build -/
+theorem declInj_keeps (w : World) (hwf : WellFormed w.facts w.v2) :
+    WalkName.Keeps w (fun u => WalkDesc.Full w.bt w.facts w.v2 u ∧ DeclInj u) where
+  same := fun u u' ho ht hb hd hf hv hc h => ⟨full_of_same ho ht hb hd h.1,
+    declInj_of_idx (u := u) (fun d => by cases d; exact hf; exact hv; exact hc) h.2⟩
+  add := fun u ob u' h hf => ⟨addObj_full w.facts w.v2 hwf w.fuel u ob u' h.1 hf, addObj_declInj w.facts w.v2 w.fuel u ob u' h.1.1 h.2 hf⟩
+
+/-- **requested_packages_complete_v1**: `FindTypes` over any request list, then any sequence of `AddDirTo`, then the scan of
+one more requested package `p`: the package is complete in the resulting universe – whatever had been loaded before -/
+theorem requested_packages_complete_v1 (w : World) (hwf : WellFormed w.facts w.v2) (req : List Str) (ps : List Str) (a st : LState)
+    (h1 : findTypesV1 w req = some a) (h2 : WalkIso.addDirsV1 w a ps = some st) (fuel : Nat) (hfuel : w.fuel = fuel + 1)
+    (p : GPkg) (u' : U) (hnd : (p.scope.filterMap (declKey w.v2)).Nodup)
+    (hf : scanPkg w.bt w.facts w.v2 w.fuel st.u p = some u') :
+    (∀ ob ∈ p.scope, C01.PlainNamed w.facts w.v2 ob → C01.Present w.facts w.v2 u' ob) ∧
+    (∀ ob ∈ p.scope, ∀ (d : Decl) (n : Name), declKey w.v2 ob = some (d, n) → Recorded w.facts w.v2 u' d n ob.ty (declVal ob)) ∧
+    (∃ r ∈ u'.pkgs, r.path = p.path ∧ r.name = p.name ∧ ∀ i ∈ p.imports, i ∈ r.imports) := by
+  have k := declInj_keeps w hwf
+  have ha := k.findTypesV1 ⟨full_empty w.bt w.facts w.v2, declInj_empty⟩ req a h1
+  have hst := foldl_bind_inv (fun s q => addDirToV1 w s q) (fun s => WalkDesc.Full w.bt w.facts w.v2 s.u ∧ DeclInj s.u)
+    (fun s q s' hs hv => k.addDirToV1 s s' q hs hv) ps a st ha h2
+  rw [hfuel] at hf
+  exact requested_package_is_complete w.facts w.v2 hwf fuel st.u u' p hst.1 hst.2 hnd hf
+
 /-! non-vacuity: walking the cyclic demo program (`type T struct{ Next *T }`) from `T` and from `*T` gives universes that
 number their objects differently – `p.T` is object 0 in the one and object 1 in the other – so the correspondence of
 the theorems above is a genuine isomorphism, not an identity; the demo facts are `Consistent` (`C01.demo_consistent`) -/
